@@ -35,6 +35,7 @@ mod c13;
 mod tables_prec;
 mod tables_lower;
 mod e2e;
+mod jsontext;
 
 fn main() {
     util::silence_panics();
@@ -71,6 +72,11 @@ fn main() {
             let kind: usize = args.get(2).and_then(|s| s.parse().ok()).unwrap_or(0);
             let n: usize = args.get(3).and_then(|s| s.parse().ok()).unwrap_or(1000);
             c14::long_child(kind, n);
+        }
+        "c03tz" => {
+            let seed: u64 = args.get(2).and_then(|s| s.parse().ok()).unwrap_or(1);
+            let n: usize = args.get(3).and_then(|s| s.parse().ok()).unwrap_or(400);
+            c03::tz_child(seed, n);
         }
         "tzscan" => {
             let seed: u64 = args.get(2).and_then(|s| s.parse().ok()).unwrap_or(1);
